@@ -13,7 +13,7 @@
    sigma for the alias map, sigma_h for the headers map, sigma_d for the map argument. *)
 From Coq Require Import String Ascii List Bool Arith ZArith Permutation Sorted.
 From Shoot Require Import Base.Str Model.Directive Model.Rest Model.RestSpec
-     Proofs.RestBase Proofs.RestProofs Proofs.RestExamples.
+     Proofs.RestBase Proofs.RestProofs Proofs.RestExamples Proofs.RestParse.
 Import ListNotations.
 Local Open Scope string_scope.
 Local Open Scope list_scope.
@@ -35,6 +35,57 @@ Theorem C06_request_is_the_declared_one :
     = spec_request fmt_v join_path json_marshal url_query sigma_d ms (iface_directive I) base args.
 Proof. exact request_is_declared. Qed.
 Print Assumptions C06_request_is_the_declared_one.
+
+(* ------------------------------------------------- parse of render (the hypothesis [linked]) *)
+(* The doc comment that is the canonical rendering of a directive --
+       shoot: <Verb>(<path> or "<path>")          Verb in Get/GET/get, Post/..., Put/..., Patch/..., Delete/...
+       shoot: alias={k1:v1},{k2:v2},...          absent without aliases
+   -- is parsed by the model's parsePath / parseAlias (the literal regular expressions of cook.go run by the
+   backtracking matcher) to exactly that directive, for ALL token lists and alias lists that pass the decidable
+   syntactic conditions [directive_ok] ... *)
+Theorem C06_canonical_directive_parses :
+  forall v quoted ts al,
+  directive_ok v quoted ts al = true ->
+  parse_path (canonical_doc v quoted ts al) = PathOk (upper v) (render_toks ts) (holes ts) /\
+  parse_alias (canonical_doc v quoted ts al) = al.
+Proof. exact canonical_parses. Qed.
+Print Assumptions C06_canonical_directive_parses.
+
+(* ... so [linked] holds for every method documented that way, and the main theorem applies to it *)
+Theorem C06_linked_for_canonical_rendering :
+  forall E m v quoted ts al ps,
+  directive_ok v quoted ts al = true ->
+  md_doc m = Some (canonical_doc v quoted ts al) ->
+  typed_params E m = map (fun pk => (fst pk, Some (snd pk))) ps ->
+  linked E m {| s_verb := upper v; s_toks := ts; s_alias := al; s_params := ps |}.
+Proof. exact canonical_linked. Qed.
+Print Assumptions C06_linked_for_canonical_rendering.
+
+Theorem C06_request_for_canonical_rendering :
+  forall fmt_v join_path json_marshal url_query sigma_d (sigma sigma_h : oracle) E I m v quoted ts al ps base args,
+  is_oracle sigma -> is_oracle sigma_h ->
+  directive_ok v quoted ts al = true ->
+  md_doc m = Some (canonical_doc v quoted ts al) ->
+  typed_params E m = map (fun pk => (fst pk, Some (snd pk))) ps ->
+  wf_mspec {| s_verb := upper v; s_toks := ts; s_alias := al; s_params := ps |} = true ->
+  args_in_guard fmt_v {| s_verb := upper v; s_toks := ts; s_alias := al; s_params := ps |} args = true ->
+  exists d, cook_method sigma E m = COk d /\
+    exec fmt_v join_path json_marshal url_query sigma_d (iface_headers sigma_h I (d_verb d)) d base args
+    = spec_request fmt_v join_path json_marshal url_query sigma_d
+        {| s_verb := upper v; s_toks := ts; s_alias := al; s_params := ps |} (iface_directive I) base args.
+Proof. exact request_for_canonical. Qed.
+Print Assumptions C06_request_for_canonical_rendering.
+
+Example C06_example_canonical_getuser :
+  directive_ok "Get" true [PLit "/users/"; PHole "id"] [("userID", "id")] = true /\
+  canonical_doc "Get" true [PLit "/users/"; PHole "id"] [("userID", "id")]
+  = ("shoot: Get(""/users/{id}"")" ++ nls ++ "shoot: alias={userID:id}" ++ nls)%string.
+Proof. exact canonical_example_getuser. Qed.
+Example C06_example_canonical_queryusers :
+  directive_ok "Get" true [PLit "/users"] [("pageSize", "size"); ("pageIdx", "page_idx")] = true /\
+  canonical_doc "Get" true [PLit "/users"] [("pageSize", "size"); ("pageIdx", "page_idx")]
+  = ("shoot: Get(""/users"")" ++ nls ++ "shoot: alias={pageSize:size},{pageIdx:page_idx}" ++ nls)%string.
+Proof. exact canonical_example_queryusers. Qed.
 
 (* what the declarative request says when a request is sent (exactly one: [OSent r] is one
    c.client.Do(req_)): verb, path, URL, headers, context, body (POST/PUT/PATCH), query (GET/DELETE) *)
